@@ -34,12 +34,13 @@ pub struct SimTable {
     pub sorted_by_k: bool,
     pub unbounded: bool,
     pub accept_filters: bool,
+    pub view: bool,
 }
 
 #[async_trait]
 impl TableProvider for SimTable {
     fn schema(&self) -> SchemaRef {
-        table_schema()
+        crate::data::schema_for(self.view)
     }
     fn table_type(&self) -> TableType {
         TableType::Base
@@ -68,7 +69,7 @@ impl TableProvider for SimTable {
             None
         };
         Ok(Arc::new(
-            SimSourceExec::build(&self.name, self.scripts.clone(), ordering, self.unbounded, proj, Arc::clone(&self.stats))
+            SimSourceExec::build_view(&self.name, self.scripts.clone(), ordering, self.unbounded, proj, Arc::clone(&self.stats), self.view)
                 .with_accept_filters(self.accept_filters),
         ))
     }
@@ -165,6 +166,7 @@ pub struct TableSpec {
     pub sorted_by_k: bool,
     pub unbounded: bool,
     pub accept_filters: bool,
+    pub view: bool,
 }
 
 pub fn parse_tables(v: &Value) -> Option<Vec<TableSpec>> {
@@ -176,6 +178,7 @@ pub fn parse_tables(v: &Value) -> Option<Vec<TableSpec>> {
             sorted_by_k: t.get("sorted").and_then(|x| x.as_bool()).unwrap_or(false),
             unbounded: t.get("unbounded").and_then(|x| x.as_bool()).unwrap_or(false),
             accept_filters: t.get("filters").and_then(|x| x.as_bool()).unwrap_or(false),
+            view: t.get("view").and_then(|x| x.as_bool()).unwrap_or(false),
         });
     }
     if out.is_empty() || out.len() > 4 {
@@ -198,6 +201,7 @@ pub fn build_session(env: &EnvSpec, knobs: &Value, tables: &[TableSpec]) -> Opti
             sorted_by_k: t.sorted_by_k,
             unbounded: t.unbounded,
             accept_filters: t.accept_filters,
+            view: t.view,
         };
         ctx.register_table(t.name.as_str(), Arc::new(tbl)).ok()?;
         stats.push((t.name.clone(), st));
@@ -212,8 +216,8 @@ pub fn build_baseline(tables: &[TableSpec]) -> Option<SessionContext> {
     let ctx = SessionContext::new_with_config(cfg);
     for t in tables {
         let rows = all_rows(&t.scripts);
-        let batch = crate::data::rows_to_batch(&rows);
-        let mt = MemTable::try_new(table_schema(), vec![vec![batch]]).ok()?;
+        let batch = crate::data::rows_to_batch_for(&rows, t.view);
+        let mt = MemTable::try_new(crate::data::schema_for(t.view), vec![vec![batch]]).ok()?;
         ctx.register_table(t.name.as_str(), Arc::new(mt)).ok()?;
     }
     Some(ctx)
